@@ -12,11 +12,17 @@ HERE = os.path.dirname(os.path.abspath(__file__))
 ROOT = os.path.dirname(HERE)
 
 
+_ARGNAMES = {}
+
+
 def run_crosshair(path, per_condition_timeout=60, per_path_timeout=None, wall_timeout=600, only=None):
     """-> {function name: (status, message)} with status in confirmed / refuted / unknown"""
     src = open(path).read()
     tree = ast.parse(src)
     spans = [(n.lineno, n.end_lineno, n.name) for n in ast.walk(tree) if isinstance(n, ast.FunctionDef)]
+    for n in ast.walk(tree):
+        if isinstance(n, ast.FunctionDef):
+            _ARGNAMES[n.name] = [a.arg for a in n.args.args]
     targets = [path] if only is None else [f"{path}:{ln}" for ln in only]
     cmd = [sys.executable, "-m", "crosshair", "check", "--report_all", f"--per_condition_timeout={per_condition_timeout}"]
     if per_path_timeout:
@@ -45,25 +51,45 @@ def run_crosshair(path, per_condition_timeout=60, per_path_timeout=None, wall_ti
             continue
         msg = m.group(4)
         if m.group(3) == "error":
-            st = "refuted"
+            st = "refuted" if msg.startswith("false when calling") else "raised"
         elif "Confirmed over all paths" in msg:
             st = "confirmed"
         else:
             st = "unknown"
         # an error line wins over info lines for the same function
-        if fn not in res or st == "refuted" or (res[fn][0] == "unknown" and st == "confirmed" and False):
+        if fn not in res or st in ("refuted", "raised"):
             res[fn] = (st, msg)
     return res, out, time.time() - t0
 
 
+def run_crosshair_parallel(path, per_condition_timeout=60, wall_timeout=900, jobs=12):
+    """One crosshair process per contract function (per-condition timeouts are sequential CPU inside one process)."""
+    from concurrent.futures import ThreadPoolExecutor
+    tree = ast.parse(open(path).read())
+    fns = [n for n in tree.body if isinstance(n, ast.FunctionDef) and "post:" in (ast.get_docstring(n) or "")]
+    t0 = time.time()
+    res, outs = {}, []
+
+    def one(n):
+        return run_crosshair(path, per_condition_timeout=per_condition_timeout, wall_timeout=wall_timeout, only=[n.body[0].lineno])
+    with ThreadPoolExecutor(max_workers=jobs) as ex:
+        for r, out, _ in ex.map(one, fns):
+            res.update(r)
+            outs.append(out)
+    return res, "\n".join(outs), time.time() - t0
+
+
 def parse_call_args(msg):
     """'false when calling f(a=1, b=[0.0, 2.0])' -> dict via ast.literal_eval on each keyword"""
-    m = re.search(r"calling \w+\((.*)\)", msg)
+    m = re.search(r"calling (\w+)\((.*?)\)(?: \(which|$)", msg)
     if not m:
         return None
     try:
-        call = ast.parse("f(" + m.group(1) + ")", mode="eval").body
+        call = ast.parse("f(" + m.group(2) + ")", mode="eval").body
         out = {}
+        names = _ARGNAMES.get(m.group(1), [])
+        for i, a in enumerate(call.args):
+            out[names[i] if i < len(names) else f"arg{i}"] = ast.literal_eval(a)
         for kw in call.keywords:
             out[kw.arg] = ast.literal_eval(kw.value)
         return out
@@ -107,3 +133,138 @@ def run_c15(cx):
     st, msg = res.get("canary_idxs", ("unknown", "no report line"))
     cx.external("canary[target index off by dt]", "sat" if st == "refuted" else ("unsat" if st == "confirmed" else "unknown"), msg,
                 reproduced=True, canary=True)
+
+
+def _c19_concrete(kind, losses, patience, min_delta, rep):
+    """Un-instrumented replay: the real classes (fresh import, builtin float) fed genuine scalars of representation `rep`."""
+    import importlib.util
+    import numpy as np
+    spec = importlib.util.spec_from_file_location("sc_real", os.path.join(os.environ.get("VERIF_REPO", "/repo"),
+                                                                           "src/ginjax/ml/stopping_conditions.py"))
+    m = importlib.util.module_from_spec(spec)
+    spec.loader.exec_module(m)
+    from xhair import c19_stop
+    if rep == "float":
+        conv = float
+    elif rep == "np.float32":
+        conv = np.float32
+    else:
+        import jax.numpy as jnp
+        conv = lambda v: jnp.asarray(v, dtype=jnp.float32)
+    cls = m.TrainLoss if kind == "train" else m.ValLoss
+    sc = cls(patience=patience, min_delta=min_delta)
+    first = -1
+    sc.stop(("model", -1), 0, None, None, 0.0)
+    for i, l in enumerate(losses):
+        lv = conv(l)
+        r = sc.stop(("model", i), i + 1, lv if kind == "train" else conv(123.0), lv if kind == "val" else conv(123.0), 0.0)
+        if r:
+            first = i
+            break
+    # the reference on the float32-rounded values the classes actually saw
+    seen = [float(np.float32(l)) if rep != "float" else float(l) for l in losses]
+    efirst, _ = c19_stop.ref_run(seen, patience, min_delta)
+    ebest = c19_stop.ref_run(seen if first < 0 else seen[: first + 1], patience, min_delta)[1]
+    bidx = sc.best_model[1] if isinstance(sc.best_model, tuple) else -2
+    ok = (first == efirst) and (bidx == ebest)
+    return ok, f"{cls.__name__} fed {rep} losses {losses} patience={patience} min_delta={min_delta}: first stop {first} (spec {efirst}), best model {bidx} (spec {ebest})"
+
+
+def run_c19(cx, tier="quick"):
+    path = os.path.join(HERE, "c19_stop.py")
+    sys.path.insert(0, ROOT)
+    t = 90 if tier == "quick" else 300
+    res, out, dt = run_crosshair_parallel(path, per_condition_timeout=t, wall_timeout=3000)
+    # which scalar representations are not `float` (measured on the real objects, recorded as a note)
+    import numpy as np
+    import jax.numpy as jnp
+    reps = {"float": isinstance(1.0, float), "np.float32": isinstance(np.float32(1), float), "np.float64": isinstance(np.float64(1), float),
+            "jax 0-d array": isinstance(jnp.asarray(1.0), float)}
+    cx.note("isinstance(., float) on this platform: " + repr(reps))
+    plan = [
+        ("check_trainloss_float", "train", ["float"]),
+        ("check_trainloss_nonfloat", "train", ["np.float32", "jax"]),
+        ("check_valloss_float", "val", ["float"]),
+        ("check_valloss_nonfloat", "val", ["np.float32", "jax"]),
+    ]
+    for fn, kind, repl in plan:
+        st, msg = res.get(fn, ("unknown", "no report line"))
+        name = f"{fn}: bounded histories vs reference state machine"
+        if st in ("refuted", "raised"):
+            args = parse_call_args(msg) or {}
+            rep_ok, det = False, msg
+            for rp in repl:
+                try:
+                    ok, d = _c19_concrete(kind, list(args.get("losses", [])), int(args.get("patience", 0)), float(args.get("min_delta", 0.0)), rp)
+                except Exception as e:  # noqa: BLE001
+                    ok, d = False, f"replay raised {e!r}"
+                if not ok:
+                    rep_ok, det = True, d
+                    break
+            cx.external(name, "sat", det, reproduced=rep_ok, key=f"stop:{fn}", witness=args, solver_s=dt)
+        else:
+            cx.external(name, "unsat" if st == "confirmed" else "unknown", msg, key=f"stop:{fn}", solver_s=dt)
+    for fn in ("check_step_train", "check_step_val", "check_epochstop"):
+        st, msg = res.get(fn, ("unknown", "no report line"))
+        if st in ("refuted", "raised"):
+            cx.external(f"{fn}", "sat", msg, reproduced=_c19_step_replay(fn, parse_call_args(msg) or {}), key=f"stop:{fn}",
+                        witness=parse_call_args(msg) or {}, solver_s=dt)
+        else:
+            cx.external(f"{fn}", "unsat" if st == "confirmed" else "unknown", msg, key=f"stop:{fn}", solver_s=dt)
+    for fn in ("canary_patience", "canary_reach"):
+        st, msg = res.get(fn, ("unknown", "no report line"))
+        cx.external(f"canary[{fn}]", "sat" if st == "refuted" else ("unsat" if st == "confirmed" else "unknown"), msg, reproduced=True, canary=True)
+    # genuine-scalar differential runs over a small ordered alphabet (translator validation of the NF / float-stub modelling)
+    import itertools
+    n = 0
+    bad = []
+    for L in (1, 2, 3):
+        for losses in itertools.product([1.0, 2.0, 3.0], repeat=L):
+            for pat in (0, 1):
+                for rp in ("float", "np.float32", "jax"):
+                    for kind in ("train", "val"):
+                        ok, d = _c19_concrete(kind, list(losses), pat, 0.0, rp)
+                        n += 1
+                        if not ok:
+                            bad.append(d)
+    cx.validated_against_impl(n)
+    if bad:
+        cx.external("genuine scalars (float, np.float32, jax) on the real classes", "sat", bad[0] + f" (+{len(bad) - 1} more)", reproduced=True,
+                    key="stop:genuine-scalars", witness={})
+    else:
+        cx.external("genuine scalars (float, np.float32, jax) on the real classes", "unsat", f"{n} concrete differential runs agree", key="stop:genuine-scalars")
+
+
+def _c19_step_replay(fn, args):
+    try:
+        import importlib.util
+        spec = importlib.util.spec_from_file_location("sc_real2", os.path.join(os.environ.get("VERIF_REPO", "/repo"),
+                                                                                "src/ginjax/ml/stopping_conditions.py"))
+        m = importlib.util.module_from_spec(spec)
+        spec.loader.exec_module(m)
+        import numpy as np
+        if fn == "check_epochstop":
+            sc = m.EpochStop(args["epochs"])
+            first = -1
+            for e in range(args["n"] + 1):
+                if sc.stop(("model", e), e, 1.0 if e else None, None, 0.0):
+                    first = e
+                    break
+            want = args["epochs"] if args["epochs"] <= args["n"] else -1
+            return not (first == want and (first < 0 or sc.best_model == ("model", first)))
+        cls = m.TrainLoss if fn.endswith("train") else m.ValLoss
+        sc = cls(patience=args["patience"], min_delta=args["min_delta"])
+        if fn.endswith("train"):
+            sc.best_train_loss = args["best"]
+        else:
+            sc.best_val_loss = args["best"]
+        sc.epochs_since_best = args["since"]
+        sc.best_model = "old"
+        lv = np.float32(args["loss"]) if args.get("wrap") else float(args["loss"])
+        r = sc.stop("new", 7, lv if fn.endswith("train") else None, lv if fn.endswith("val") else None, 0.0)
+        lf = float(lv)
+        if lf < args["best"] - args["min_delta"]:
+            return not ((not r) and sc.epochs_since_best == 0 and sc.best_model == "new")
+        return not (r == (args["since"] + 1 > args["patience"]) and sc.epochs_since_best == args["since"] + 1 and sc.best_model == "old")
+    except Exception:  # noqa: BLE001
+        return True
